@@ -11,6 +11,9 @@ Opaque event_key parse_event_id event_prefix.
 
 Definition id_of_key (k : bytes) : N := match parse_event_id k with Some id => id | None => 0 end.
 
+Definition sobs (kv : bytes * option (N * N)) : string * option (N * N * N) :=
+  (l2s (fst kv), match snd kv with Some ti => Some (id_of_key (fst kv), fst ti, snd ti) | None => None end).
+
 Definition obs_of (r : result) : obs :=
   match r with
   | RLogged _ => ObsLog 0
@@ -18,12 +21,13 @@ Definition obs_of (r : result) : obs :=
   | RLogEncodeErr => ObsLog 2
   | RCommitted _ => ObsCommit true
   | RCommitStale | RCommitNone => ObsCommit false
-  | RReopened snap => ObsReopen (map (fun kv => (l2s (fst kv), id_of_key (fst kv), fst (snd kv), snd (snd kv))) snap)
+  | RReopened snap => ObsReopen (map sobs snap)
   | RRecovered calls => ObsRecover (map (fun c => (e_typ (fst c), e_item (fst c), stages (snd c))) calls)
+  | RInjected => ObsInject
   end.
 
 Definition obs_trace (tr : trace) : list obs := map (fun x => obs_of (snd x)) tr.
-Definition spec0 (regs : list N) : spec := mkSpec [] [] regs [] true.
+Definition spec0 (regs : list N) : spec := mkSpec [] [] regs [] [] true.
 Definition ospec (regs : list N) (tr : trace) : spec := spec_run (spec0 regs) (map fst tr) (obs_trace tr).
 
 Lemma spec_run_snoc : forall ops os sp o b, List.length ops = List.length os ->
@@ -64,6 +68,7 @@ Record rel (regs : list N) (tr : trace) (st : state) : Prop := mkRel {
   r_corr : corr (gone (ospec regs tr)) (removed_ids tr) (logged tr);
   r_gone : forall i, In i (gone (ospec regs tr)) -> In i (map e_item (logged tr));
   r_ids : forall it id, In (it, id) (ids (ospec regs tr)) -> exists e, In e (logged tr) /\ e_item e = it /\ e_id e = id;
+  r_inj : forall k, In k (inj (ospec regs tr)) <-> In k (map l2s (injected tr));
   r_issued : map fst (issued st) = map e_id (logged tr);
   r_items : NoDup (map e_item (logged tr))
 }.
@@ -277,13 +282,47 @@ Qed.
 
 Definition tup (e : entry) : string * N * N * N := (l2s (event_key (e_id e)), e_id e, e_typ e, e_item e).
 
-Lemma snap_obs_live : forall L s, ids_ok L s -> s < two64N ->
-  map (fun kv : bytes * (N * N) => (l2s (fst kv), id_of_key (fst kv), fst (snd kv), snd (snd kv))) (kv_of L) = map tup L.
+Lemma mem_string_In : forall x l, mem_string x l = true <-> In x l.
+Proof.
+  induction l as [|y t IH]; simpl; [split; [discriminate|tauto]|].
+  rewrite orb_true_iff, IH, String.eqb_eq. split; intros [H|H]; auto.
+Qed.
+Lemma l2s_inj : forall a b, l2s a = l2s b -> a = b.
+Proof. intros a b H. rewrite <- (s2l_l2s a), <- (s2l_l2s b), H. reflexivity. Qed.
+
+Definition own_of (injl : list string) (snap0 : list (string * option (N * N * N))) :=
+  filter (fun s : string * option (N * N * N) => negb (mem_string (fst s) injl)) snap0.
+
+Lemma own_filter : forall injl L F kv, Merge (kv_of L) F kv ->
+  (forall f, In f F -> mem_string (l2s (fst f)) injl = true) ->
+  (forall e, In e L -> mem_string (l2s (event_key (e_id e))) injl = false) ->
+  own_of injl (map sobs kv) = map sobs (kv_of L).
+Proof.
+  intros injl L F kv M. remember (kv_of L) as A. revert L HeqA.
+  induction M as [|a A F kv M IH|f A F kv M IH]; intros L EA HF HL.
+  - destruct L; [reflexivity | discriminate].
+  - destruct L as [|e L']; [discriminate|]. simpl in EA. inversion EA; subst a A. clear EA.
+    unfold own_of. cbn [map filter]. unfold sobs at 1. cbn [key_of fst snd].
+    rewrite (HL e (or_introl eq_refl)). cbn [negb]. f_equal.
+    apply (IH L' eq_refl HF). intros x Hx. apply HL. right. exact Hx.
+  - unfold own_of. cbn [map filter]. unfold sobs at 1. cbn [fst].
+    rewrite (HF f (or_introl eq_refl)). cbn [negb].
+    apply (IH L EA); [intros x Hx; apply HF; right; exact Hx | exact HL].
+Qed.
+
+Lemma snap_of_own : forall L s, ids_ok L s -> s < two64N ->
+  flat_map (fun s0 : string * option (N * N * N) =>
+              match snd s0 with Some x => [(fst s0, fst (fst x), snd (fst x), snd x)] | None => [] end)
+           (map sobs (kv_of L)) = map tup L.
 Proof.
   intros L s [_ Rg] Hs. induction L as [|e L IH]; [reflexivity|]. inversion Rg as [|? ? [H1 H2] Rl]; subst.
-  cbn [map kv_of key_of fst snd]. unfold tup at 1. unfold id_of_key. rewrite key_roundtrip by (split; lia).
-  f_equal. apply IH. exact Rl.
+  cbn [map kv_of flat_map]. unfold sobs at 1. cbn [key_of fst snd]. unfold id_of_key.
+  rewrite key_roundtrip by (split; lia). cbn [List.app fst snd]. unfold tup at 1. f_equal. apply IH. exact Rl.
 Qed.
+Lemma own_all_some : forall L,
+  forallb (fun s0 : string * option (N * N * N) => match snd s0 with Some _ => true | None => false end)
+          (map sobs (kv_of L)) = true.
+Proof. induction L as [|e L IH]; [reflexivity|]. cbn [map kv_of forallb]. unfold sobs at 1. cbn [key_of snd]. exact IH. Qed.
 
 Lemma reopen_c1 : forall L,
   list_eqb2 (fun (a : N * N) (s : string * N * N * N) => N.eqb (fst a) (snd s) && N.eqb (snd a) (snd (fst s)))
@@ -309,19 +348,21 @@ Variable tr : trace.
 Variable st : state.
 Hypothesis Hrun : run (init regs) ops = (tr, st).
 Hypothesis Hseq : seq st < two64N.
+Hypothesis Hinert : Forall op_inert ops.
 Hypothesis R : rel regs tr st.
-
-Let I : inv tr st := run_inv regs ops tr st Hrun Hseq.
+Variable F : kvstore.
+Hypothesis I : inv tr st F.
 
 Lemma rel_unchanged : forall o r st', reg st' = reg st -> issued st' = issued st ->
-  (forall id, r <> RLogged id) -> removed_ids [(o, r)] = [] ->
+  (forall id, r <> RLogged id) -> removed_ids [(o, r)] = [] -> injected [(o, r)] = [] ->
   spec_step (ospec regs tr) o (obs_of r) = ospec regs tr ->
   rel regs (tr ++ [(o, r)]) st'.
 Proof.
-  intros o r st' Hreg Hiss Hl Hr Hs. destruct R as [Rg Rl Rr Rc Rgo Ri Ris Rit].
+  intros o r st' Hreg Hiss Hl Hr Hi Hs. destruct R as [Rg Rl Rr Rc Rgo Ri Rin Ris Rit].
   assert (EL : logged (tr ++ [(o, r)]) = logged tr) by (apply logged_snoc_other; exact Hl).
   assert (ER : removed_ids (tr ++ [(o, r)]) = removed_ids tr) by (rewrite removed_snoc, Hr, app_nil_r; reflexivity).
-  constructor; rewrite ?ospec_snoc, ?Hs, ?EL, ?ER, ?Hreg, ?Hiss; assumption.
+  assert (EI : injected (tr ++ [(o, r)]) = injected tr) by (rewrite injected_snoc, Hi, app_nil_r; reflexivity).
+  constructor; rewrite ?ospec_snoc, ?Hs, ?EL, ?ER, ?EI, ?Hreg, ?Hiss; assumption.
 Qed.
 
 Lemma rel_log : forall t i e st' r, step st (Log t i e) = (st', r) -> seq st' < two64N ->
@@ -332,7 +373,7 @@ Proof.
   { inversion Hs; subst st' r. apply rel_unchanged; try reflexivity. intros id C; discriminate. }
   destruct (negb e) eqn:Eenc.
   { inversion Hs; subst st' r. apply rel_unchanged; try reflexivity. intros id C; discriminate. }
-  inversion Hs; subst st' r. clear Hs. destruct R as [Rg Rl Rr Rc Rgo Ri Ris Rit].
+  inversion Hs; subst st' r. clear Hs. destruct R as [Rg Rl Rr Rc Rgo Ri Rin Ris Rit].
   set (id := seq st + 1) in *. set (en := mkEntry id t i).
   assert (EL : logged (tr ++ [(Log t i e, RLogged id)]) = logged tr ++ [en]) by (rewrite logged_snoc; reflexivity).
   assert (ER : removed_ids (tr ++ [(Log t i e, RLogged id)]) = removed_ids tr)
@@ -341,11 +382,13 @@ Proof.
   { intro C. apply Ni. apply in_map_iff in C. destruct C as [x [<- Hx]].
     eapply logged_items_sub; eassumption. }
   assert (ES : spec_step (ospec regs tr) (Log t i e) (ObsLog 0)
-               = mkSpec (lg (ospec regs tr) ++ [(i, t)]) (gone (ospec regs tr)) (rg (ospec regs tr)) (ids (ospec regs tr)) (good (ospec regs tr))).
+               = mkSpec (lg (ospec regs tr) ++ [(i, t)]) (gone (ospec regs tr)) (rg (ospec regs tr)) (ids (ospec regs tr)) (inj (ospec regs tr)) (good (ospec regs tr))).
   { simpl. rewrite Rl, map_map. simpl.
     replace (memN i (map (fun x => e_item x) (logged tr))) with false; [reflexivity|].
     symmetry. apply memN_false_notin. exact Nit. }
-  constructor; rewrite ?ospec_snoc; simpl obs_of; rewrite ?ES, ?EL, ?ER; cbn [lg gone rg ids good reg issued].
+  assert (EI : injected (tr ++ [(Log t i e, RLogged id)]) = injected tr)
+    by (rewrite injected_snoc; simpl; rewrite app_nil_r; reflexivity).
+  constructor; rewrite ?ospec_snoc; simpl obs_of; rewrite ?ES, ?EL, ?ER, ?EI; cbn [lg gone rg ids inj good reg issued].
   - exact Rg.
   - rewrite Rl, map_app. reflexivity.
   - exact Rr.
@@ -353,10 +396,11 @@ Proof.
     cbn [e_item e_id en].
     replace (memN i (gone (ospec regs tr))) with false.
     + symmetry. apply memN_false_notin. intro C.
-      pose proof (i_removed _ _ I) as Irem. rewrite Forall_forall in Irem. specialize (Irem _ C). unfold id in Irem. lia.
+      pose proof (i_removed _ _ _ I) as Irem. rewrite Forall_forall in Irem. specialize (Irem _ C). unfold id in Irem. lia.
     + symmetry. apply memN_false_notin. intro C. apply Nit. apply Rgo. exact C.
   - intros x Hx. rewrite map_app. apply in_or_app. left. apply Rgo. exact Hx.
   - intros it idx Hx. destruct (Ri it idx Hx) as [x [X1 X2]]. exists x. split; [apply in_or_app; left; exact X1 | exact X2].
+  - exact Rin.
   - rewrite !map_app, Ris. reflexivity.
   - rewrite map_app. simpl. apply NoDup_app_snoc; assumption.
 Qed.
@@ -368,7 +412,7 @@ Proof.
   2:{ inversion Hs; subst st' r. apply rel_unchanged; try reflexivity. intros id C; discriminate. }
   destruct (N.eqb g (gen st)).
   2:{ inversion Hs; subst st' r. apply rel_unchanged; try reflexivity. intros id0 C; discriminate. }
-  inversion Hs; subst st' r. clear Hs. destruct R as [Rg Rl Rr Rc Rgo Ri Ris Rit].
+  inversion Hs; subst st' r. clear Hs. destruct R as [Rg Rl Rr Rc Rgo Ri Rin Ris Rit].
   assert (En2 : nth_error (map e_id (logged tr)) k = Some id).
   { rewrite <- Ris. rewrite (map_nth_error fst k (issued st) En). reflexivity. }
   apply nth_error_map_some in En2. destruct En2 as [en [En2 Eid]].
@@ -376,22 +420,29 @@ Proof.
   assert (EL : logged (tr ++ [(Commit k, RCommitted id)]) = logged tr) by (apply logged_snoc_other; intros x C; discriminate).
   assert (ER : removed_ids (tr ++ [(Commit k, RCommitted id)]) = removed_ids tr ++ [id]) by (rewrite removed_snoc; reflexivity).
   assert (ES : spec_step (ospec regs tr) (Commit k) (ObsCommit true)
-               = mkSpec (lg (ospec regs tr)) (e_item en :: gone (ospec regs tr)) (rg (ospec regs tr)) (ids (ospec regs tr)) (good (ospec regs tr))).
+               = mkSpec (lg (ospec regs tr)) (e_item en :: gone (ospec regs tr)) (rg (ospec regs tr)) (ids (ospec regs tr)) (inj (ospec regs tr)) (good (ospec regs tr))).
   { simpl. rewrite Rl. rewrite (map_nth_error pi k (logged tr) En2). reflexivity. }
-  constructor; rewrite ?ospec_snoc; simpl obs_of; rewrite ?ES, ?EL, ?ER; cbn [lg gone rg ids good reg issued]; try assumption.
+  assert (EI : injected (tr ++ [(Commit k, RCommitted id)]) = injected tr)
+    by (rewrite injected_snoc; simpl; rewrite app_nil_r; reflexivity).
+  constructor; rewrite ?ospec_snoc; simpl obs_of; rewrite ?ES, ?EL, ?ER, ?EI; cbn [lg gone rg ids inj good reg issued]; try assumption.
   - intros x Hx. simpl. rewrite memN_app. simpl. rewrite orb_false_r. rewrite (Rc x Hx).
-    rewrite (eq_item_id (logged tr) x en Rit (i_sorted _ _ I) Hx Hen). rewrite Eid. apply orb_comm.
+    rewrite (eq_item_id (logged tr) x en Rit (i_sorted _ _ _ I) Hx Hen). rewrite Eid. apply orb_comm.
   - intros i [<-|Hi]; [apply in_map; exact Hen | apply Rgo; exact Hi].
 Qed.
+
+Hypothesis Hlen : forall k, In k (injected tr) -> List.length k <> 24%nat.
 
 Lemma rel_reopen : forall b rs st' r, step st (Reopen b rs) = (st', r) -> rel regs (tr ++ [(Reopen b rs, r)]) st'.
 Proof.
   intros b rs st' r Hs. simpl in Hs. inversion Hs; subst st' r. clear Hs.
-  destruct R as [Rg Rl Rr Rc Rgo Ri Ris Rit].
-  pose proof (inv_live_ok _ _ I) as OK.
+  destruct R as [Rg Rl Rr Rc Rgo Ri Rin Ris Rit].
+  pose proof (inv_live_ok _ _ _ I) as OK.
+  destruct (i_kv _ _ _ I) as [Mg Sk Fi].
   assert (EL : logged (tr ++ [(Reopen b rs, RReopened (kv st))]) = logged tr) by (apply logged_snoc_other; intros x C; discriminate).
   assert (ER : removed_ids (tr ++ [(Reopen b rs, RReopened (kv st))]) = removed_ids tr)
     by (rewrite removed_snoc; simpl; rewrite app_nil_r; reflexivity).
+  assert (EI : injected (tr ++ [(Reopen b rs, RReopened (kv st))]) = injected tr)
+    by (rewrite injected_snoc; simpl; rewrite app_nil_r; reflexivity).
   set (sp := ospec regs tr) in *.
   set (idm := map (fun e => (e_item e, e_id e)) (live tr) ++ ids sp).
   assert (Hidm : forall it x, In (it, x) idm -> exists e, In e (logged tr) /\ e_item e = it /\ e_id e = x).
@@ -401,24 +452,36 @@ Proof.
                   forall e x, In e (logged tr) -> lookupN (e_item e) m = Some x -> x = e_id e).
   { intros m Hm e x He Hl. apply lookupN_In in Hl. destruct (Hm _ _ Hl) as [e2 [H2 [E1 E2]]].
     assert (e2 = e) by (eapply same_item; eassumption). subst. reflexivity. }
+  assert (Eown : own_of (inj sp) (map sobs (kv st)) = map sobs (kv_of (live tr))).
+  { apply (own_filter (inj sp) (live tr) F (kv st) Mg).
+    - intros f Hf. apply mem_string_In. apply Rin. apply in_map. apply (i_fkeys _ _ _ I). exact Hf.
+    - intros e He. destruct (mem_string (l2s (event_key (e_id e))) (inj sp)) eqn:E; [|reflexivity].
+      apply mem_string_In, Rin, in_map_iff in E. destruct E as [k [E Hk]]. apply l2s_inj in E. subst k.
+      elim (Hlen _ Hk). apply event_key_length. }
   assert (ES : spec_step sp (Reopen b rs) (obs_of (RReopened (kv st)))
-               = mkSpec (lg sp) (gone sp) rs idm true).
-  { cbn [obs_of spec_step]. rewrite (i_kv _ _ I), (snap_obs_live _ _ OK Hseq).
+               = mkSpec (lg sp) (gone sp) rs idm (inj sp) true).
+  { cbn [obs_of spec_step]. fold (own_of (inj sp) (map sobs (kv st))). rewrite Eown.
+    rewrite (snap_of_own _ _ OK Hseq), own_all_some.
+    assert (C0 : forallb (fun k : string => mem_string k (map fst (map sobs (kv st)))) (inj sp) = true).
+    { apply forallb_forall. intros k Hk. apply mem_string_In. apply Rin, in_map_iff in Hk. destruct Hk as [k0 [<- Hk0]].
+      destruct (i_fkept _ _ _ I k0 Hk0) as [ov Hov]. rewrite map_map.
+      apply in_map_iff. exists (k0, ov). split; [reflexivity | eapply merge_in_r; eassumption]. }
+    rewrite C0.
     assert (Elive : filter (fun it : N * N => negb (memN (fst it) (gone sp))) (lg sp) = map pi (live tr)).
     { rewrite Rl. apply live_pi. exact Rc. }
     rewrite Elive, reopen_c1.
     assert (Eids : map (fun s : string * N * N * N => let '(_, id, _, item) := s in (item, id)) (map tup (live tr)) ++ ids sp = idm).
     { unfold idm. rewrite map_map. reflexivity. }
-    rewrite Eids. cbn [lg gone rg ids good]. rewrite Rg. cbn [andb].
+    rewrite Eids. cbn [lg gone rg ids inj good]. rewrite Rg. cbn [andb].
     assert (C2 : forallb (fun s : string * N * N * N => let '(_, id, _, item) := s in
                             match lookupN item (ids sp) with Some id' => N.eqb id id' | None => true end) (map tup (live tr)) = true).
     { rewrite forallb_map. apply forallb_forall. intros e He. unfold tup.
       destruct (lookupN (e_item e) (ids sp)) as [x|] eqn:E; [|reflexivity].
       rewrite (Hlook (ids sp) Ri e x (logged_sub_live _ _ He) E). apply N.eqb_refl. }
     rewrite C2. cbn [andb].
-    assert (C3 : strictly_incr (known_ids (mkSpec (lg sp) (gone sp) rs idm true)) = true).
+    assert (C3 : strictly_incr (known_ids (mkSpec (lg sp) (gone sp) rs idm (inj sp) true)) = true).
     { unfold known_ids. cbn [lg ids]. rewrite Rl. rewrite known_sub.
-      - apply strictly_incr_of_sorted. apply sorted_filter. exact (i_sorted _ _ I).
+      - apply strictly_incr_of_sorted. apply sorted_filter. exact (i_sorted _ _ _ I).
       - intros e x He Hl. eapply Hlook; eassumption. }
     rewrite C3. cbn [andb].
     assert (C4 : forallb (fun s : string * N * N * N => N.leb 1 (snd (fst (fst s)))) (map tup (live tr)) = true).
@@ -426,13 +489,27 @@ Proof.
       destruct OK as [_ Rng]. rewrite Forall_forall in Rng. apply N.leb_le. apply (Rng e He). }
     rewrite C4. reflexivity. }
   unfold sp in ES.
-  constructor; rewrite ?ospec_snoc, ?ES, ?EL, ?ER; cbn [lg gone rg ids good reg issued]; try assumption; try reflexivity.
+  constructor; rewrite ?ospec_snoc, ?ES, ?EL, ?ER, ?EI; cbn [lg gone rg ids inj good reg issued]; try assumption; try reflexivity.
+Qed.
+
+Lemma rel_inject : forall k v st' r, step st (Inject k v) = (st', r) -> rel regs (tr ++ [(Inject k v, r)]) st'.
+Proof.
+  intros k v st' r Hs. simpl in Hs. inversion Hs; subst st' r. clear Hs.
+  destruct R as [Rg Rl Rr Rc Rgo Ri Rin Ris Rit].
+  assert (EL : logged (tr ++ [(Inject k v, RInjected)]) = logged tr) by (apply logged_snoc_other; intros x C; discriminate).
+  assert (ER : removed_ids (tr ++ [(Inject k v, RInjected)]) = removed_ids tr)
+    by (rewrite removed_snoc; simpl; rewrite app_nil_r; reflexivity).
+  assert (EI : injected (tr ++ [(Inject k v, RInjected)]) = injected tr ++ [k]) by (rewrite injected_snoc; reflexivity).
+  constructor; rewrite ?ospec_snoc; cbn [obs_of spec_step]; rewrite ?EL, ?ER, ?EI; cbn [lg gone rg ids inj good reg issued];
+    try assumption.
+  intro x. rewrite map_app, in_app_iff. cbn [map In]. rewrite <- Rin. tauto.
 Qed.
 
 Lemma rel_recover : forall oc st' r, step st (Recover oc) = (st', r) -> rel regs (tr ++ [(Recover oc, r)]) st'.
 Proof.
-  intros oc st' r Hs. rewrite (recover_step regs ops tr st oc Hrun Hseq) in Hs. inversion Hs; subst st' r. clear Hs.
-  destruct R as [Rg Rl Rr Rc Rgo Ri Ris Rit].
+  intros oc st' r Hs. destruct (recover_step regs ops tr st oc Hrun Hseq Hinert) as [st2 [E2 [_ [Er2 [_ [Ei2 _]]]]]].
+  rewrite E2 in Hs. inversion Hs; subst st' r. clear Hs E2.
+  destruct R as [Rg Rl Rr Rc Rgo Ri Rin Ris Rit].
   set (calls := expected_calls (reg st) oc (live tr)).
   set (f := fun c : entry * outcome => (e_typ (fst c), e_item (fst c), stages (snd c))).
   set (RC := filter (fun c : entry * outcome => removes (snd c)) calls).
@@ -443,8 +520,10 @@ Proof.
   assert (EL : logged (tr ++ [(Recover oc, RRecovered calls)]) = logged tr) by (apply logged_snoc_other; intros x C; discriminate).
   assert (ER : removed_ids (tr ++ [(Recover oc, RRecovered calls)]) = removed_ids tr ++ removed_by calls)
     by (rewrite removed_snoc; simpl; rewrite app_nil_r; reflexivity).
+  assert (EI : injected (tr ++ [(Recover oc, RRecovered calls)]) = injected tr)
+    by (rewrite injected_snoc; simpl; rewrite app_nil_r; reflexivity).
   assert (ES : spec_step (ospec regs tr) (Recover oc) (obs_of (RRecovered calls))
-               = mkSpec (lg (ospec regs tr)) (rm ++ gone (ospec regs tr)) (rg (ospec regs tr)) (ids (ospec regs tr)) true).
+               = mkSpec (lg (ospec regs tr)) (rm ++ gone (ospec regs tr)) (rg (ospec regs tr)) (ids (ospec regs tr)) (inj (ospec regs tr)) true).
   { cbn [obs_of spec_step]. fold f.
     set (sp := ospec regs tr) in *.
     assert (Eexp : filter (fun it : N * N => negb (memN (fst it) (gone sp)) && memN (snd it) (rg sp)) (lg sp)
@@ -487,10 +566,10 @@ Proof.
     { rewrite filter_map_comm, map_map. unfold rm, RC. cbn [f fst snd]. f_equal.
       apply filter_ext_in. intros c Hc. rewrite <- (Hc_out c Hc). reflexivity. }
     rewrite Erm, Rg. reflexivity. }
-  constructor; rewrite ?ospec_snoc, ?ES, ?EL, ?ER; cbn [lg gone rg ids good reg issued]; try assumption; try reflexivity.
+  constructor; rewrite ?ospec_snoc, ?ES, ?EL, ?ER, ?EI, ?Er2, ?Ei2; cbn [lg gone rg ids inj good reg issued]; try assumption; try reflexivity.
   - intros x Hx. rewrite !memN_app, (Rc x Hx). rewrite orb_comm. f_equal.
     unfold rm, removed_by. fold RC.
-    apply (mem_corr (logged tr) RC x Rit (i_sorted _ _ I) Hx).
+    apply (mem_corr (logged tr) RC x Rit (i_sorted _ _ _ I) Hx).
     intros c Hc. unfold RC in Hc. apply filter_In in Hc. apply logged_sub_live, Hc_live, Hc.
   - intros i Hi. apply in_app_or in Hi. destruct Hi as [Hi|Hi]; [|apply Rgo; exact Hi].
     unfold rm in Hi. apply in_map_iff in Hi. destruct Hi as [c [<- Hc]]. unfold RC in Hc. apply filter_In in Hc.
@@ -507,6 +586,7 @@ Proof.
   - intros e H. destruct H.
   - intros i H. destruct H.
   - intros it id H. destruct H.
+  - intro k. simpl. tauto.
   - reflexivity.
   - constructor.
 Qed.
@@ -522,30 +602,44 @@ Proof.
   intros [C|C]; [subst; apply Ny; apply in_or_app; right; left; reflexivity | eapply IH; eassumption].
 Qed.
 
-Lemma run_rel : forall regs ops tr st,
-  run (init regs) ops = (tr, st) -> seq st < two64N -> NoDup (log_items ops) -> rel regs tr st.
+Lemma injected_len : forall regs ops tr st, run (init regs) ops = (tr, st) -> Forall op_inert ops ->
+  forall k, In k (injected tr) -> List.length k <> 24%nat.
 Proof.
-  intros regs ops. induction ops as [|o ops IH] using rev_ind; intros tr st H B ND.
+  intros regs ops tr st H HI k Hk. unfold injected in Hk. apply in_flat_map in Hk. destruct Hk as [[o r] [Hx Hin]].
+  cbn [fst] in Hin. destruct o; try contradiction. destruct Hin as [<-|[]].
+  rewrite Forall_forall in HI. assert (Ho : In (Inject key val) ops).
+  { rewrite <- (run_fst _ _ _ _ H). apply (in_map fst _ _ Hx). }
+  specialize (HI _ Ho). simpl in HI. apply HI.
+Qed.
+
+Lemma run_rel : forall regs ops tr st,
+  run (init regs) ops = (tr, st) -> seq st < two64N -> Forall op_inert ops -> NoDup (log_items ops) -> rel regs tr st.
+Proof.
+  intros regs ops. induction ops as [|o ops IH] using rev_ind; intros tr st H B HI ND.
   - simpl in H. inversion H; subst. apply rel_init.
   - rewrite run_app in H. destruct (run (init regs) ops) as [tr1 st1] eqn:R1.
     simpl in H. destruct (step st1 o) as [st2 r] eqn:E. inversion H; subst tr st. clear H.
     assert (B1 : seq st1 < two64N) by (pose proof (seq_mono _ _ _ _ E); lia).
     unfold log_items in ND. rewrite flat_map_app in ND. fold (log_items ops) in ND.
     assert (ND1 : NoDup (log_items ops)) by (eapply NoDup_app_l; exact ND).
-    specialize (IH tr1 st1 eq_refl B1 ND1).
-    destruct o as [t i e|k|b rs|oc].
+    assert (HI1 : Forall op_inert ops) by (apply Forall_app in HI; tauto).
+    specialize (IH tr1 st1 eq_refl B1 HI1 ND1).
+    destruct (run_inv regs ops tr1 st1 R1 B1 HI1) as [F I].
+    pose proof (injected_len regs ops tr1 st1 R1 HI1) as Hlen.
+    destruct o as [t i e|k|b rs|oc|ik iv].
     + simpl in ND. apply NoDup_snoc_notin in ND. eapply rel_log; eassumption.
     + eapply rel_commit; eassumption.
     + eapply rel_reopen; eassumption.
     + eapply rel_recover; eassumption.
+    + eapply rel_inject; eassumption.
 Qed.
 
-(* the boolean check accepts what the model does, for every history with distinct event items *)
+(* the boolean check accepts what the model does, for every history with distinct event items
+   and inert foreign writes *)
 Lemma ok_sound : forall regs ops tr st,
-  run (init regs) ops = (tr, st) -> seq st < two64N -> NoDup (log_items ops) ->
+  run (init regs) ops = (tr, st) -> seq st < two64N -> Forall op_inert ops -> NoDup (log_items ops) ->
   ok (mkCase regs ops (obs_trace tr)) = true.
 Proof.
-  intros regs ops tr st H B ND. pose proof (run_rel regs ops tr st H B ND) as R.
+  intros regs ops tr st H B HI ND. pose proof (run_rel regs ops tr st H B HI ND) as R.
   unfold ok. cbn [c_regs c_ops c_obs]. rewrite <- (run_fst _ _ _ _ H) at 1. exact (r_good _ _ _ R).
 Qed.
-
